@@ -4,6 +4,7 @@
 package gossip
 
 import (
+	"bytes"
 	"encoding/hex"
 	"encoding/json"
 	"fmt"
@@ -110,6 +111,9 @@ type vhHostile struct {
 	ID     string `json:"id"`
 	Bytes  string `json:"bytes"`
 	Stream bool   `json:"stream"`
+	// NoRead (streams): the peer sends a VALID join request (built with the real encoder) followed by Bytes and then
+	// never reads the reply: the handler must give up at its stream timeout, not block in its write for ever
+	NoRead bool `json:"noread"`
 }
 type vhHostileOut struct {
 	ID        string         `json:"id"`
@@ -150,6 +154,24 @@ func vhRunHostile(hc vhHostile) (out vhHostileOut) {
 		}()
 		if hc.Stream {
 			c1, c2 := net.Pipe()
+			if hc.NoRead {
+				var req bytes.Buffer
+				req.WriteByte(byte(messageTypeJoin))
+				req.WriteByte(supportedVersion)
+				enc := newEncoder(&req)
+				_ = enc.Encode(&joinHeader{NodeID: "peer", Addr: "10.0.0.9:7000"})
+				_ = enc.Encode(delta{})
+				_ = enc.Encode(digest{})
+				req.Write(b)
+				go func() {
+					_, _ = c1.Write(req.Bytes())
+					time.Sleep(20 * time.Second) // never reads; closed long after the handler must have given up
+					c1.Close()
+				}()
+				me.sl.streamTimeout = 2 * time.Second
+				ch <- res{err: me.sl.handleConn(c2)}
+				return
+			}
 			go func() {
 				_ = c1.SetDeadline(time.Now().Add(2 * time.Second))
 				_, _ = c1.Write(b)
